@@ -411,7 +411,15 @@ func vC01RunCase(c vC01Case) (res vC01Result) {
 				case "unpin":
 					err = n.cc.LogUnpin(ctx, p.real())
 				default:
-					err = n.cc.commit(ctx, &LogOp{Cid: p.real(), Type: op.Type}, "LogPin", p.real())
+					// an op of an unknown type has no API: it is handed to the Raft layer of the current leader as the bytes
+					// the commit path would write. (Consensus.commit would redirect it to the leader as a LogPin call when
+					// this member has just lost the leadership, and an entry nobody submitted would appear in the log.)
+					l := rig.leader(3 * time.Second)
+					if l == nil || !rig.quorumPossible() {
+						return
+					}
+					rig.setCommitter(l.idx)
+					err = l.raft.Apply(b, time.Second).Error()
 				}
 				if err == nil {
 					rig.mu.Lock()
